@@ -9,7 +9,8 @@
 (***************************************************************************)
 EXTENDS Naturals, Sequences, FiniteSets, TLC
 CONSTANTS Deviations
-VARIABLES scn,      \* [kind, extractor, prefix, methods : Seq([fn, ep, errs, tags, cpref])]
+VARIABLES scn,      \* [kind, extractor, prefix, statusmap, methods : Seq([fn, ep, errs, tags, cpref, name])]
+                    \* statusmap: "map" = OpenAPI(error_http_status_map={2001: 400}): that error gets a response entry of its own
           heap,     \* heap[k] : Seq of error codes = the annotated `errors` list object k (1: shared, 1+j: method j's own)
           docs      \* Seq of generated abstract documents (each: Seq of entries)
 vars == <<scn, heap, docs>>
